@@ -60,7 +60,8 @@ func leafPalette(r *coqfmt.Rng) reflect.Type {
 	case x == 17:
 		return coqfmt.Pick(r, []reflect.Type{reflect.TypeOf(map[string]int(nil)), reflect.TypeOf(map[string]struct{}(nil)),
 			reflect.TypeOf(map[string]string(nil)), reflect.TypeOf(map[string][]string(nil)), reflect.TypeOf(map[int8]bool(nil)),
-			reflect.TypeOf(rty.NMap(nil)), reflect.TypeOf(map[string]uint8(nil))})
+			reflect.TypeOf(rty.NMap(nil)), reflect.TypeOf(map[string]uint8(nil)),
+			reflect.TypeOf(map[string]time.Duration(nil)), reflect.TypeOf(map[time.Duration]string(nil)), reflect.TypeOf(map[time.Duration]time.Duration(nil))})
 	case x == 18:
 		return coqfmt.Pick(r, rty.NamedScalars()) // a declared type of every scalar kind
 	default:
@@ -105,7 +106,7 @@ func leafClass(t reflect.Type) int {
 		}
 		ek := t.Elem().Kind()
 		if leafClass(t.Key()) == kParse && leafClass(t.Elem()) == kParse && t.Key().Kind() != reflect.Float64 &&
-			ek != reflect.Float32 && ek != reflect.Float64 && ek != reflect.Complex64 && ek != reflect.Complex128 && t.Elem() != tDuration && ek != reflect.Slice && ek != reflect.Map {
+			ek != reflect.Float32 && ek != reflect.Float64 && ek != reflect.Complex64 && ek != reflect.Complex128 && ek != reflect.Slice && ek != reflect.Map {
 			return kParse
 		}
 		return kSkip
